@@ -271,7 +271,7 @@ def _check_rows(E, rows):
 
 def worker(case, seed):
     pm, md, fd, uc, ap, fb = _mods()
-    E = Engine(seed=seed, max_paths=4000, query_timeout_ms=30000)
+    E = Engine(seed=seed, max_paths=4000, query_timeout_ms=120000)
     E.div0_mode = "numpy"
     real_inputs(case["country"])
     saved = fd.Food.conversions.__dict__.copy()
